@@ -231,6 +231,7 @@ func c03FailingHmac(x *runCtx, c c03Config) {
 
 func c03History(x *runCtx, r *rand.Rand, c c03Config) {
 	c03FailingHmac(x, c)
+	c03OwnerOptions(x, c)
 	ctx := context.Background()
 	st := lab.NewMemState()
 	w := lab.NewWorld(st)
@@ -350,6 +351,87 @@ func c03History(x *runCtx, r *rand.Rand, c c03Config) {
 		if err := agreement(ext, d.Cred, d.Secret); err != nil {
 			viol("resold-voucher-disagreement", fmt.Sprintf("round %d", round), err.Error())
 			return
+		}
+	}
+}
+
+// c03OwnerOptions: one DI, one extension and one TO2 (no credential reuse) under owner-side settings that the other
+// histories leave at their usual values: the answer of the MaxDeviceServiceInfoSize callback (0, small, no callback at
+// all) and owner keys that come without a certificate chain while the voucher's manufacturer key is an X5Chain. Whatever
+// the setting does to the run, the two sides end in agreement: a completed TO2 leaves the replacement voucher stored and
+// matching the new credential; a failed one leaves the old voucher and the old credential.
+func c03OwnerOptions(x *runCtx, c c03Config) {
+	if c.reuse {
+		return
+	}
+	ctx := context.Background()
+	opts := []string{"owner-size-limit=0", "owner-size-limit=64", "owner-size-limit=300", "no-size-limit-callback"}
+	if c.enc == protocol.X5ChainKeyEnc {
+		opts = append(opts, "owner-keys-without-certificate-chain")
+	}
+	for _, opt := range opts {
+		st := lab.NewMemState()
+		w := lab.NewWorld(st)
+		w.RvInfo = [][]protocol.RvInstruction{{{Variable: protocol.RVDns, Value: cborBytes("rv.lab")}}}
+		input := c.String() + " " + opt
+		viol := func(sig, impl string) {
+			x.r.Violate(rep.Violation{Kind: "oracle", Check: "C03.agreement", Signature: "C03." + sig + ":" + opt, Input: input, Impl: impl, PropertyFails: true})
+		}
+		d, err := w.NewDevice(ctx, c.k, c.enc, "dev1", nil)
+		if err != nil {
+			fatal("DI: %v", err)
+		}
+		switch opt {
+		case "owner-size-limit=0":
+			var m uint16
+			w.OwnerMTU = &m
+		case "owner-size-limit=64":
+			m := uint16(64)
+			w.OwnerMTU = &m
+		case "owner-size-limit=300":
+			m := uint16(300)
+			w.OwnerMTU = &m
+		case "no-size-limit-callback":
+			w.TO2S.MaxDeviceServiceInfoSize = nil
+		case "owner-keys-without-certificate-chain":
+			st.NoChains = true
+		}
+		if err := w.Extend(ctx, d.Cred.GUID, c.k, "mfg", "own1", false); err != nil {
+			fatal("extend: %v", err)
+		}
+		oldGUID, oldCred := d.Cred.GUID, cborBytes(d.Cred)
+		before, _ := st.VoucherBytes(oldGUID)
+		res := step(func() error {
+			_, err := w.TO2(ctx, d, nil, lab.TO2Opts{Kex: c.suite, Cipher: c.cipher}, nil)
+			return err
+		})
+		x.r.Case(input, true, "owner-option:"+opt+":"+res)
+		if res == "panic" {
+			x.r.Violate(rep.Violation{Kind: "panic", Check: "C03.agreement", Signature: "C03.panic:" + opt, Input: input, Impl: res, PropertyFails: true})
+			continue
+		}
+		if res != "ok" {
+			after, _ := st.VoucherBytes(oldGUID)
+			if !bytes.Equal(before, after) || !bytes.Equal(oldCred, cborBytes(d.Cred)) || len(st.VoucherGUIDs()) != 1 {
+				viol("failed-run-changed-one-side", fmt.Sprintf("to2=%s voucher unchanged=%v credential unchanged=%v", res, bytes.Equal(before, after), bytes.Equal(oldCred, cborBytes(d.Cred))))
+			}
+			continue
+		}
+		if d.Cred.GUID == oldGUID {
+			viol("guid-not-replaced", "")
+			continue
+		}
+		if _, ok := st.VoucherBytes(oldGUID); ok {
+			viol("old-voucher-still-stored", "TO2 completed, the device holds a new credential, the owner still holds the voucher under the old GUID")
+			continue
+		}
+		nv, err := st.Voucher(ctx, d.Cred.GUID)
+		if err != nil {
+			viol("replacement-voucher-missing", err.Error())
+			continue
+		}
+		if err := agreement(nv, d.Cred, d.Secret); err != nil {
+			viol("to2-disagreement", err.Error())
 		}
 	}
 }
